@@ -6,6 +6,7 @@
              Each harness is announced by a line
              // @unit class=complete|modular|bounded tier=quick|thorough mem=light|heavy [bound="..."] [timeout=N] fns=a,b
              followed (after attributes) by `fn <name>()`.
+*.kani.rs header `//! plain: yes`: stage this module in a second workspace WITHOUT the S3 attributes (Kani cannot stub a function that carries a contract).
 *.attrs    : S3 table: blocks  `@file <path>` / `@anchor <signature prefix>` / attribute lines.
 """
 import os, re, glob, shlex
@@ -51,7 +52,7 @@ def load_kani(pid):
         hdr = dict(re.findall(r"^//! (\w+): (.+)$", raw, flags=re.M))
         attach, module = hdr["attach"].strip(), hdr["module"].strip()
         text = expand_includes(raw)
-        modules.append(dict(attach=attach, module=module, text=text, file=f))
+        modules.append(dict(attach=attach, module=module, text=text, file=f, plain=hdr.get("plain", "").strip() == "yes"))
         crate = None
         lines = raw.splitlines()
         i = 0
@@ -96,7 +97,7 @@ def load_kani(pid):
                 k += 1
             u.src = "\n".join(lines[i:k + 1])
             u.ncovers = len(re.findall(r"kani::cover!\(", u.src))
-            u.file = os.path.relpath(f, VERIF); u.module = module; u.attach = attach
+            u.file = os.path.relpath(f, VERIF); u.module = module; u.attach = attach; u.plain = hdr.get("plain", "").strip() == "yes"
             u.crate = stage.crate_name_of(attach)
             u.harness_path = module_path(attach, module) + "::" + u.name
             units.append(u)
